@@ -52,6 +52,7 @@ func subRace(suite, tier string, seed int64) {
 			overlappingClosureCalls(rep, "C20", api)
 			errKindScenarios(rep, "C20", jsonRaw(), api)
 		}
+		sharedLinkHooks(rep, "C20")
 		for _, m := range manyLinksNewNames(4, 200) {
 			rep.addViolation("property", "C20:many-links", m, nil)
 		}
